@@ -15,11 +15,15 @@ The translation is an abstract interpretation of the function body that forgets 
 * expressions are translated by the classification table in `tables.py` (printed into the evidence as
   `classification_table`), see `tables.TABLE_DOC` for the rules in words;
 * calls into persim are inlined per call site, with fresh variables and allocation sites for each site (recursion-free);
+* variables may hold FUNCTION VALUES (persim functions, lambdas, external functions, bound methods, …): a call through a variable
+  applies every function value it is known to hold; a call through anything the translator cannot resolve is an UNKNOWN CALL,
+  which may write everything reachable from its arguments and its receiver (`Frame.unknown_call`);
 * subscripts / iteration / unpacking give `copy`+`elem` (a view of the same buffer, or an element of the container);
 * `x.attr = v` is `setattr` (an instance's attribute table is not an array or list), `x.attr` is `elem`.
 
 Nothing here decides the property: the emitted programs are checked by the Lean checker (`safe`), whose soundness is
-`PersimVerif.C19.checked_no_owned_write`.
+`PersimVerif.C19.checked_no_owned_write`; `wellFormed` (obligation `wf_<entry>`) checks that no instruction reads a variable
+that nothing defines, so that a dropped defining instruction is an error and not an empty points-to set.
 """
 import ast, os, json, sys
 from . import tables as T
@@ -32,6 +36,7 @@ OPNAMES = ["new", "copy", "store", "elem", "write", "setattr", "readGlobal", "wr
 HERE = os.path.dirname(os.path.abspath(__file__))
 EXTRA_PUBLIC = {"_transform", "_p_norm"}
 MAX_DEPTH = 12
+LOOP_PASSES = 8                # a loop body is re-translated until its version sets are stable; not stable after that many: TranslatorError
 CANON = [("matplotlib.pyplot", "plt"), ("matplotlib", "mpl"), ("numpy", "np")]
 
 
@@ -234,7 +239,9 @@ class Program:
         self.vars, self.sites, self.site_desc = {}, {}, []
         self.instrs, self.seen, self.origin = [], set(), {}
         self.params = []
-        self.fv = {}                  # IR var -> set of callable descriptors (function values)
+        self.fv = {}                  # IR var -> set of callable descriptors (function values), see `Frame.apply_desc`
+        self.fn_origin = set()        # IR vars created as holders of a function value (all their values are described by fv)
+        self.defs = {}                # IR var -> [(op, source)] of the instructions that define it (new / copy / elem)
         self.list_vars = set()        # IR vars that can only hold fresh Python containers (list/tuple/dict/set objects):
                                       # subscripting / iterating them yields an element, never a view of the container
         self.notes = []
@@ -259,8 +266,24 @@ class Program:
             self.seen.add(ins)
             self.instrs.append(ins)
             self.origin[ins] = origin
+            if op in (NEW, COPY, ELEM):
+                self.defs.setdefault(a, []).append((op, b))
         if op == COPY and b in self.fv:
             self.fv.setdefault(a, set()).update(self.fv[b])
+
+    def fn_complete(self, v, seen=None):
+        """every value `v` can hold is a function value described in `fv[v]` (or a constant, whose call only raises):
+        `v` was created as a function-value holder, or is defined by copies of such variables only"""
+        if v in self.fn_origin or v == self.vars.get(("const",)):
+            return True
+        seen = set() if seen is None else seen
+        if v in seen:
+            return True
+        seen.add(v)
+        ds = self.defs.get(v, [])
+        if not ds or v in self.params:
+            return False
+        return all(op == COPY and self.fn_complete(src, seen) for op, src in ds)
 
     # --- least solution of the inclusion constraints (mirror of Model/IR.lean `solve`; unverified, checked in Lean)
     def solve(self):
@@ -308,6 +331,22 @@ class Program:
             if op in (WRITE, STORE) and sol["pts"][a] & 1:
                 out.append({"instr": "%s %d %d" % (OPNAMES[op], a, b), "origin": self.origin.get(ins, "")})
         return out
+
+    def well_formed(self, sol):
+        """Python mirror of `wellFormed` (Model/IR.lean) on the unpacked tables: every variable and site is inside the tables,
+        every variable that is read is a parameter or bound by some instruction, every write target has a non-empty points-to set"""
+        nv, no = len(sol["pts"]), sol["nObj"]
+        defined = set(self.params) | {a for op, a, b in self.instrs if op in (NEW, COPY, ELEM)}
+        if no < 1 or len(sol["cont"]) < no or any(p >= nv for p in self.params):
+            return False
+        for op, a, b in self.instrs:
+            uses = {COPY: (b,), STORE: (a, b), ELEM: (b,), WRITE: (a,), SETATTR: (a, b)}.get(op, ())
+            allv = uses + ((a,) if op in (NEW, COPY, ELEM) else ())
+            if any(v >= nv for v in allv) or (op == NEW and b + 1 >= no):
+                return False
+            if any(v not in defined for v in uses) or (op in (WRITE, STORE, SETATTR) and sol["pts"][a] == 0):
+                return False
+        return True
 
     def eliminate_dead(self):
         """drop `new`/`copy`/`elem` into variables that are never used (dead temporaries); nothing else is touched"""
@@ -373,6 +412,11 @@ class Callee:
         return isinstance(o, Callee) and self.key() == o.key()
 
 
+def dkey(d):
+    """a total, run-independent order on function-value descriptors"""
+    return (0, repr(d.key())) if isinstance(d, Callee) else (1, repr(d))
+
+
 def pos(node):
     return (getattr(node, "lineno", 0), getattr(node, "col_offset", 0), getattr(node, "end_lineno", 0),
             getattr(node, "end_col_offset", 0), type(node).__name__)
@@ -416,6 +460,8 @@ class Frame:
         self.local_imports = {}
         self.global_names = set()
         self.selfname = None
+        self.vtag = ""            # distinguishes the temporaries of several function values applied at one call node
+        self.param_bind = {}      # parameter name -> the variable it was bound to
         a = getattr(func, "args", None)
         self.param_names = set(p.arg for p in a.posonlyargs + a.args + a.kwonlyargs) if a else set()
         self.ret = prog.var(("ret", ctx))
@@ -432,13 +478,21 @@ class Frame:
         self.prog.emit(op, a, b, self.org(node) if node is not None else "")
 
     def tmp(self, node, tag=""):
-        return self.prog.var(("t", self.ctx, self.module.name, pos(node), tag))
+        return self.prog.var(("t", self.ctx, self.module.name, pos(node), tag + self.vtag))
+
+    def fnval(self, node, desc, tag="fn"):
+        """a variable holding exactly the function value `desc`"""
+        t = self.tmp(node, tag + repr(dkey(desc)))
+        self.prog.fv.setdefault(t, set()).add(desc)
+        self.prog.fn_origin.add(t)
+        self.emit(COPY, t, self.const(), node)
+        return t
 
     def fresh(self, node, tag="", desc=None, is_list=False):
         t = self.tmp(node, "new" + tag)
         if is_list:
             self.prog.list_vars.add(t)
-        s = self.prog.site(("s", self.ctx, self.module.name, pos(node), tag),
+        s = self.prog.site(("s", self.ctx, self.module.name, pos(node), tag + self.vtag),
                            "%s %s" % (desc or type(node).__name__, self.org(node)))
         self.emit(NEW, t, s, node)
         return t
@@ -544,15 +598,16 @@ class Frame:
             return t
         r = self.resolve_static(node.id)
         if r is None:
-            return self.const()                      # builtin or unknown name: no buffer
+            return self.fnval(node, ("ext", node.id))  # builtin (or undefined) name: no buffer; as a function value: the table
         return self.static_value(r, node)
 
     def static_value(self, r, node):
         if r[0] == "func":
-            t = self.tmp(node, "fn")
-            self.prog.fv.setdefault(t, set()).add(Callee(r[1], r[2]))
-            self.emit(COPY, t, self.const(), node)
-            return t
+            return self.fnval(node, Callee(r[1], r[2]))
+        if r[0] in ("ext", "builtin"):
+            return self.fnval(node, ("ext", r[1]))
+        if r[0] == "class":
+            return self.fnval(node, ("class", r[1].module.name, r[1].name))
         if r[0] == "data":
             qual = r[1].name + "." + r[2]
             if r[2].startswith("_VERIF_") or r[2] == "__all__":
@@ -611,7 +666,8 @@ class Frame:
 
     def comprehension(self, e, elts):
         saved = dict(self.state)
-        for _ in range(2):
+        for _ in range(LOOP_PASSES):
+            before = dict(self.state)
             for g in e.generators:
                 it = self.ev(g.iter)
                 self.assign_target(g.target, self.item(g.iter, it, "it"), g.iter)
@@ -620,6 +676,10 @@ class Frame:
             t = self.fresh(e, "", "comprehension", is_list=True)
             for x in elts:
                 self.emit(STORE, t, self.ev(x), e)
+            if self.state == before:
+                break
+        else:
+            raise TranslatorError("the version sets of the comprehension at %s are not stable after %d passes" % (self.org(e), LOOP_PASSES))
         self.state = saved
         return t
 
@@ -652,10 +712,7 @@ class Frame:
         return self.fresh(e, "", "comparison")
 
     def ev_Lambda(self, e):
-        t = self.tmp(e, "lambda")
-        self.prog.fv.setdefault(t, set()).add(Callee(self.module, e, cls=self.cls, self_cls=self.self_cls, parent=self))
-        self.emit(COPY, t, self.const(), e)
-        return t
+        return self.fnval(e, Callee(self.module, e, cls=self.cls, self_cls=self.self_cls, parent=self), "lambda")
 
     def ev_Starred(self, e):
         return self.item(e, self.ev(e.value))
@@ -664,6 +721,12 @@ class Frame:
         v = self.ev(e.value)
         self.assign_target(e.target, v, e)
         return v
+
+    def selfkey(self, e):
+        """(module, class) of the class `self` is an instance of when `e` is `self`, else (None, None)"""
+        if self.is_self(e) and self.self_cls is not None:
+            return (self.self_cls.module.name, self.self_cls.name)
+        return (None, None)
 
     def is_self(self, e):
         return isinstance(e, ast.Name) and self.selfname is not None and e.id == self.selfname and self.lookup_local(e.id) is not None
@@ -708,26 +771,82 @@ class Frame:
             self.emit(COPY, t, res, e)
         return t
 
+    @staticmethod
+    def is_dunder(name):
+        return name.startswith("__") and name.endswith("__")
+
+    def read_global(self, qual, node):
+        self.emit(RGLOB, self.global_id(qual), 0, node)
+        self.prog.globals_read.add(qual)
+
+    def write_global(self, qual, node):
+        self.emit(WGLOB, self.global_id(qual), 0, node)
+        self.prog.globals_written.add(qual)
+
+    def state_object(self, e, x=None, read=False):
+        """the name of the module-level state a store through / attribute of expression `e` touches, or None:
+        external modules and their objects, persim modules / classes / functions, class objects (`type(x)`, `x.__class__`),
+        function objects held in a local variable"""
+        d = self.dotted(e)
+        if d is not None and read and d[0] not in ("class", "func"):
+            return None                               # reads of module data / library attributes are handled where they are evaluated
+        if d is not None:
+            if d[0] in ("ext", "builtin"):
+                return "<pyplot>" if d[1].split(".")[0] in ("plt", "mpl") else "<library state %s>" % d[1]
+            if d[0] == "module":
+                return "<module %s>" % d[1].name
+            if d[0] == "class":
+                return "%s.%s.<class attributes>" % (d[1].module.name, d[1].name)
+            if d[0] == "func":
+                return "%s.%s.<function attributes>" % (d[1].name, d[2].name)
+            if d[0] == "classattr":
+                return "%s.%s.%s" % (d[1].module.name, d[1].name, d[2])
+            if d[0] == "data":
+                return "%s.%s" % (d[1].name, d[2])
+            return None
+        if x is not None:
+            for ds in sorted(self.prog.fv.get(x, ()), key=dkey):
+                if isinstance(ds, Callee):
+                    return "%s.%s.<function attributes>" % (ds.module.name, getattr(ds.node, "name", "<lambda>"))
+                if ds[0] in ("classof", "class"):
+                    return "<class attributes>"
+        return None
+
     def ev_Attribute(self, e):
         d = self.dotted(e)
         if d is not None:
-            if d[0] in ("func", "data"):
+            if d[0] in ("func", "data", "ext", "builtin", "class"):
+                if d[0] in ("ext", "builtin") and d[1] in T.STATE_READS:
+                    self.read_global(T.STATE_READS[d[1]], e)
                 return self.static_value(d, e)
             if d[0] == "classattr":
                 m = self.project.lookup_method(d[1], d[2])
                 if m:
-                    t = self.tmp(e, "fn")
-                    self.prog.fv.setdefault(t, set()).add(Callee(m[0].module, m[1], cls=m[0], self_cls=d[1]))
-                    self.emit(COPY, t, self.const(), e)
-                    return t
+                    return self.fnval(e, Callee(m[0].module, m[1], cls=m[0], self_cls=d[1]))
+                if not self.is_dunder(d[2]) and d[2] not in d[1].getters:
+                    # class-level data: state shared by all instances and all calls
+                    qual = "%s.%s.%s" % (d[1].module.name, d[1].name, d[2])
+                    if qual not in self.tr.constants:
+                        self.read_global(qual, e)
+                    return self.defvar()
             return self.const()
         x = self.ev(e.value)
         if e.attr in T.SCALAR_ATTRS:
             return self.fresh(e, "", "scalar attribute")
+        if e.attr == "__class__":
+            return self.fnval(e, ("classof",) + self.selfkey(e.value), "classof")
+        if not self.is_dunder(e.attr):
+            st = self.state_object(e.value, x, read=True)
+            if st is not None:                        # attribute of a function / class object: module-level state
+                self.read_global(st, e)
+                return self.defvar()
         t = self.tmp(e, "attr")
         self.emit(ELEM, t, x, e)
         if e.attr in T.VIEW_ATTRS:
             self.emit(COPY, t, x, e)
+        # as a function value: the bound method `x.attr`
+        self.prog.fv.setdefault(t, set()).add(("bound", x, e.attr) + self.selfkey(e.value))
+        self.prog.fn_origin.add(t)
         # property getters of persim classes
         if self.is_self(e.value) and self.self_cls is not None:
             g = self.project.lookup_prop(self.self_cls, e.attr, "get")
@@ -808,21 +927,85 @@ class Frame:
         return t
 
     def unknown_call(self, node, argv, what, recv=None):
+        """a callee the translator cannot resolve: HAVOC.  `R` ranges over every object reachable from the arguments and from
+        the receiver / bound object (`elem R R`); each of them may be written (`write R`), may be linked to any other
+        (`store R R`), and the result is any of them or fresh.  Function-valued arguments may be called by the callee on
+        anything it can reach.  Module-level state may be read and written."""
         self.tr.unknown_calls.add(what)
-        self.prog.notes.append("unknown call %s at %s: arguments assumed written" % (what, self.org(node)))
-        t = self.tmp(node, "unkres")
-        self.emit(COPY, t, self.fresh(node, "unk", "result of unknown call %s" % what), node)
-        for v in argv + ([recv] if recv is not None else []):
-            self.emit(WRITE, v, 0, node)
-            self.emit(COPY, t, v, node)
-        return t
+        self.prog.notes.append("unknown call %s at %s: everything reachable from the arguments assumed written" % (what, self.org(node)))
+        R = self.tmp(node, "havoc")
+        self.emit(COPY, R, self.fresh(node, "unk", "result of unknown call %s" % what), node)
+        srcs = list(argv) + ([recv] if recv is not None else [])
+        for v in srcs:
+            self.emit(COPY, R, v, node)
+        self.emit(ELEM, R, R, node)
+        self.emit(WRITE, R, 0, node)
+        self.emit(STORE, R, R, node)
+        self.read_global("<unknown callee>", node)
+        self.write_global("<unknown callee>", node)
+        busy = self.prog.__dict__.setdefault("havoc_busy", set())
+        for v in srcs:
+            for d in sorted(self.prog.fv.get(v, ()), key=dkey):
+                k = (R, dkey(d))
+                if not isinstance(d, Callee) and d[0] == "bound":
+                    self.emit(COPY, R, d[1], node)    # a bound method may be called: its receiver is within reach
+                    continue
+                if k in busy:
+                    continue
+                busy.add(k)
+                try:
+                    self.emit(COPY, R, self.apply_desc(node, d, [("pos", R)] * self.arity(d), {}, [], direct=False), node)
+                finally:
+                    busy.discard(k)
+        return R
 
-    def inline_key_callbacks(self, node, kwargs, items):
-        """`key=` / `default=` callables are applied to the elements"""
+    @staticmethod
+    def arity(d):
+        if isinstance(d, Callee):
+            a = d.node.args
+            return len(a.posonlyargs) + len(a.args)
+        return 2
+
+    def apply_key(self, node, kwargs, items):
+        """`key=` callables (sorted / min / max / list.sort) are applied to the elements"""
         kv = kwargs.get("key")
         if kv is not None:
-            for c in sorted(self.prog.fv.get(kv, ()), key=Callee.key):
-                self.inline(c, [("pos", it) for it in items[:1]], {}, [], node)
+            for it in items:
+                self.call_value(node, kv, [("pos", it)], {}, [], "key=")
+
+    def apply_desc(self, node, d, args, kwargs, kwstar, direct=True):
+        """apply one function value.  Descriptors: Callee (persim def / lambda / method) · ("ext", dotted) external or builtin
+        function, through the classification table · ("class", module, name) persim constructor · ("bound", recv, name,
+        module, class) bound method · ("classof", module, class) a class object · ("getter",) operator.itemgetter /
+        attrgetter · ("vectorized", fn) np.vectorize(fn)"""
+        saved = self.vtag
+        self.vtag = saved + "|" + repr(dkey(d))
+        try:
+            if isinstance(d, Callee):
+                return self.inline(d, args, kwargs, kwstar, node)
+            if d[0] == "ext":
+                return self.apply_table(node, d[1], args, kwargs, kwstar, direct=direct)
+            if d[0] == "class":
+                return self.construct(node, self.project.modules[d[1]].classes[d[2]], args, kwargs, kwstar)
+            if d[0] == "bound":
+                cls = self.project.modules[d[3]].classes[d[4]] if d[3] is not None else None
+                return self.bound_call(node, d[1], d[2], cls, args, kwargs, kwstar)
+            if d[0] == "classof" and d[1] is not None:
+                return self.construct(node, self.project.modules[d[1]].classes[d[2]], args, kwargs, kwstar)
+            argv = self.all_arg_vars(node, args, kwargs, kwstar)
+            if d[0] == "getter":
+                t = self.tmp(node, "got")
+                for v in argv:
+                    self.emit(COPY, t, self.item(node, v, "get%d" % v), node)
+                return t
+            if d[0] == "vectorized":
+                its = [("pos", self.item(node, v, "vec%d" % v)) for v in argv]
+                t = self.fresh(node, "vec", "result of a vectorized function")
+                self.emit(STORE, t, self.call_value(node, d[1], its, {}, [], "np.vectorize function"), node)
+                return t
+            return self.unknown_call(node, argv, "function value %r" % (d,))
+        finally:
+            self.vtag = saved
 
     def ev_Call(self, node):
         f = node.func
@@ -865,15 +1048,38 @@ class Frame:
         if isinstance(f, ast.Attribute):
             return self.method_call(node, f, args, kwargs, kwstar)
         fn = self.ev(f)
-        return self.call_value(node, fn, args, kwargs, kwstar, ast.unparse(f))
+        return self.call_value(node, fn, args, kwargs, kwstar, ast.unparse(f), fexpr=f)
 
-    def call_value(self, node, fn, args, kwargs, kwstar, what):
-        cands = sorted(self.prog.fv.get(fn, ()), key=Callee.key)
-        if not cands:
-            return self.callback(node, self.all_arg_vars(node, args, kwargs, kwstar), what)
+    def is_caller_callable(self, fexpr):
+        """`weight(...)`, `kernel(...)`: a parameter documented as a caller-supplied callable (tables.CALLER_CALLABLES), still
+        bound to the argument it received"""
+        if not (isinstance(fexpr, ast.Name) and fexpr.id in T.CALLER_CALLABLES):
+            return False
+        fr = self
+        while fr is not None:
+            if fexpr.id in fr.state:
+                return fexpr.id in fr.param_bind and fr.state[fexpr.id] == (fr.param_bind[fexpr.id],)
+            fr = fr.parent
+        return False
+
+    def call_value(self, node, fn, args, kwargs, kwstar, what, fexpr=None):
+        """a call through a variable: every function value it is known to hold is applied; if it may hold anything else, the
+        call is an unknown call (havoc) — except for the documented caller-supplied callables, which are assumed read-only"""
+        descs = sorted(self.prog.fv.get(fn, ()), key=dkey)
+        results = [self.apply_desc(node, d, args, kwargs, kwstar) for d in descs]
+        if not descs or not self.prog.fn_complete(fn):
+            argv = self.all_arg_vars(node, args, kwargs, kwstar)
+            if self.is_caller_callable(fexpr):
+                results.append(self.callback(node, argv, what))
+            elif fn != self.prog.vars.get(("const",)):
+                results.append(self.unknown_call(node, argv, what, recv=fn))
+        if len(results) == 1:
+            return results[0]
         t = self.tmp(node, "callv")
-        for c in cands:
-            self.emit(COPY, t, self.inline(c, args, kwargs, kwstar, node), node)
+        for r in results:
+            self.emit(COPY, t, r, node)
+        if not results:
+            self.emit(COPY, t, self.const(), node)
         return t
 
     def construct(self, node, cls, args, kwargs, kwstar):
@@ -887,23 +1093,27 @@ class Frame:
         return obj
 
     def method_call(self, node, f, args, kwargs, kwstar):
-        name = f.attr
-        argv = None
-        # self.method(...)
-        if self.is_self(f.value) and self.self_cls is not None:
-            m = self.project.lookup_method(self.self_cls, name)
+        cls = self.self_cls if self.is_self(f.value) else None
+        return self.bound_call(node, self.ev(f.value), f.attr, cls, args, kwargs, kwstar)
+
+    def bound_call(self, node, r, name, self_cls, args, kwargs, kwstar):
+        """the call `r.name(...)`; `self_cls` is the class `r` is an instance of when `r` is `self`, else None"""
+        is_self = self_cls is not None
+        if is_self:
+            m = self.project.lookup_method(self_cls, name)
             if m:
-                return self.inline(Callee(m[0].module, m[1], cls=m[0], bound_self=self.ev(f.value), self_cls=self.self_cls),
+                return self.inline(Callee(m[0].module, m[1], cls=m[0], bound_self=r, self_cls=self_cls),
                                    args, kwargs, kwstar, node, static=name in m[0].static)
-        r = self.ev(f.value)
         argv = self.all_arg_vars(node, args, kwargs, kwstar)
         results = []
         handled = False
-        if self.is_self(f.value) and name not in T.MUTATOR_METHODS and name not in T.FRESH_METHODS and name not in T.VIEW_METHODS:
-            # an instance attribute holding a caller-supplied callable (self.weight, self.kernel)
-            fnv = self.elem(node, r, "fnattr")
+        in_tables = name in T.MUTATOR_METHODS or name in T.FRESH_METHODS or name in T.VIEW_METHODS
+        if is_self and not in_tables and name in T.CALLER_CALLABLES:
+            # an instance attribute documented as a caller-supplied callable (self.weight, self.kernel): assumed read-only
+            self.elem(node, r, "fnattr")
             return self.callback(node, argv, "self." + name)
-        if name in self.project.method_index and not self.is_self(f.value):
+        if name in self.project.method_index and (not is_self or not in_tables):
+            # unknown receiver (or a method `self`'s own class leaves to its subclasses): every persim method of that name
             for c in self.project.method_index[name]:
                 results.append(self.inline(Callee(c.module, c.methods[name], cls=c, bound_self=r, self_cls=c), args, kwargs, kwstar, node))
             handled = True
@@ -918,14 +1128,20 @@ class Frame:
             if name in T.POPPING_METHODS:
                 results.append(self.item(node, r, "pop"))
             if name == "sort":
-                self.inline_key_callbacks(node, kwargs, [self.item(node, r, "sortit")])
+                self.apply_key(node, kwargs, [self.item(node, r, "sortit")])
         elif name in T.FRESH_METHODS:
             handled = True
             t = self.fresh(node, "m", "result of .%s()" % name)
             if name == "copy":
                 self.emit(STORE, t, self.elem(node, r, "cp"), node)
-            if name == "astype" and self.kw_is_false(node, "copy"):
-                self.emit(COPY, t, r, node)
+            posv = [v for kind, v in args if kind == "pos"]
+            star = any(kind == "star" for kind, v in args) or bool(kwstar)
+            if name in T.METHOD_COPY_POS:                  # astype(dtype, order, casting, subok, copy)
+                if self.kw_state(node, kwargs, "copy") not in ("absent", True) or len(posv) > T.METHOD_COPY_POS[name] or star:
+                    self.emit(COPY, t, r, node)
+            if name in T.METHOD_OUT_POS and (len(posv) > T.METHOD_OUT_POS[name] or star):
+                for o in posv[T.METHOD_OUT_POS[name]:] if not star else argv:
+                    self.write_out(node, o, t)
             results.append(t)
         elif name in T.VIEW_METHODS:
             handled = True
@@ -952,7 +1168,13 @@ class Frame:
         if not handled:
             return self.unknown_call(node, argv, "." + name, recv=r)
         if "out" in kwargs:
-            self.emit(WRITE, kwargs["out"], 0, node)
+            for t in results:
+                self.write_out(node, kwargs["out"], t)
+            if not results:
+                self.write_out(node, kwargs["out"], None)
+        for k in sorted(kwargs):
+            if k in T.INPLACE_KW and self.kw_state(node, kwargs, k) is not False:
+                self.emit(WRITE, r, 0, node)
         if not results:
             return self.const()
         t = self.tmp(node, "mres")
@@ -960,25 +1182,46 @@ class Frame:
             self.emit(COPY, t, v, node)
         return t
 
-    @staticmethod
-    def kw_is_false(node, name):
-        for k in node.keywords:
-            if k.arg == name and isinstance(k.value, ast.Constant) and k.value.value is False:
-                return True
-        return False
+    def write_out(self, node, o, res):
+        """`o` is an `out` argument: it (or, for `out=(a,)`, its element) is written and is what the call returns"""
+        for w in (o, self.item(node, o, "out%d" % o)):
+            self.emit(WRITE, w, 0, node)
+            if res is not None:
+                self.emit(COPY, res, w, node)
 
-    def apply_table(self, node, d, args, kwargs, kwstar):
+    def kw_state(self, node, kwargs, name, direct=True):
+        """"absent", the constant given in the source, or "unknown" (not a literal / not a call written in the source)"""
+        if name not in kwargs:
+            return "absent"
+        if direct:
+            for k in getattr(node, "keywords", []):
+                if k.arg == name and isinstance(k.value, ast.Constant):
+                    return k.value.value
+        return "unknown"
+
+    def apply_table(self, node, d, args, kwargs, kwstar, direct=True):
+        """a call of the external / builtin function `d`, by the classification table.  `direct`: the call is written in the
+        source at `node` (so literal keyword values can be read off it); otherwise `d` is applied as a function value"""
         argv = self.all_arg_vars(node, args, kwargs, kwstar)
         posv = [self.item(node, v, "star%d" % v) if kind == "star" else v for kind, v in args]
-        if "out" in kwargs:
-            self.emit(WRITE, kwargs["out"], 0, node)
+        star = any(kind == "star" for kind, v in args) or bool(kwstar)
+        if d in T.STATE_FUNCS:                         # library-level state (error / warning / print settings, environment, clock)
+            name, reads, writes = T.STATE_FUNCS[d]
+            if reads:
+                self.read_global(name, node)
+            if writes:
+                self.write_global(name, node)
+            return self.fresh(node, "st", "result of %s" % d)
         if d.startswith("np.random.") or d.startswith("random."):
             self.emit(RNG, 0, 0, node)
             self.prog.uses_rng = True
             if d in T.MUTATING_FUNCS and posv:
                 self.emit(WRITE, posv[0], 0, node)
-            return self.fresh(node, "rng", "random draw")
-        if d.startswith("plt."):
+            t = self.fresh(node, "rng", "random draw")
+            if "out" in kwargs:
+                self.write_out(node, kwargs["out"], t)
+            return t
+        if d.startswith("plt.") or d.startswith("mpl.") and d in T.PYPLOT_STATE_FUNCS:
             self.emit(RGLOB, T.PYPLOT_GLOBAL, 0, node)
             self.emit(WGLOB, T.PYPLOT_GLOBAL, 0, node)
             self.prog.globals_read.add("<pyplot>"); self.prog.globals_written.add("<pyplot>")
@@ -988,21 +1231,38 @@ class Frame:
             return h
         if d in T.MUTATING_FUNCS:
             i = T.MUTATING_FUNCS[d]
-            if i < len(posv):
-                self.emit(WRITE, posv[i], 0, node)
+            for w in ([posv[i]] if i < len(posv) and not star else argv):
+                self.emit(WRITE, w, 0, node)
                 for v in argv:
-                    self.emit(STORE, posv[i], v, node)
+                    self.emit(STORE, w, v, node)
             return self.const()
-        if d == "np.array" and self.kw_is_false(node, "copy"):
-            d = "np.asarray"
+        if d == "np.array" and (self.kw_state(node, kwargs, "copy", direct) not in ("absent", True) or star):
+            d = "np.asarray"                           # copy=False / None / not a literal: may be the very object
         if d in T.VIEW_FUNCS:
             t = self.tmp(node, "view")
-            if posv:
+            if posv and not star:
                 self.emit(COPY, t, posv[0], node)
             else:
                 for v in argv:
                     self.emit(COPY, t, v, node)
+            if "out" in kwargs:
+                self.write_out(node, kwargs["out"], t)
             return t
+        if d in ("map", "filter") and posv and not star:
+            # the function argument is applied to the elements of the iterables
+            t = self.fresh(node, "c", "result of %s" % d, is_list=True)
+            its = [self.item(node, v, "ci%d" % v) for v in posv[1:]]
+            r = self.call_value(node, posv[0], [("pos", it) for it in its], {}, [], "function argument of %s" % d)
+            for v in ([r] if d == "map" else its):
+                self.emit(STORE, t, v, node)
+            return t
+        if d == "np.vectorize" and posv and not star:
+            for k in sorted(kwargs):
+                if k != "otypes":
+                    return self.unknown_call(node, argv, d + " with " + k)
+            return self.fnval(node, ("vectorized", posv[0]), "vectorized")
+        if d in T.GETTER_FUNCS:
+            return self.fnval(node, ("getter",), "getter")
         if d in T.CONTAINER_OF_ITEMS:
             t = self.fresh(node, "c", "result of %s" % d, is_list=(d != "np.array"))
             its = []
@@ -1012,7 +1272,7 @@ class Frame:
                 self.emit(STORE, t, it, node)
                 if d == "dict":
                     self.emit(STORE, t, self.item(node, it, "cii%d" % v), node)
-            self.inline_key_callbacks(node, kwargs, its)
+            self.apply_key(node, kwargs, its)
             return t
         if d in T.CONTAINER_OF_TUPLES:
             t = self.fresh(node, "c", "result of %s" % d, is_list=True)
@@ -1038,12 +1298,50 @@ class Frame:
                 self.emit(COPY, t, v, node)
                 self.emit(ELEM, t, v, node)
                 its.append(self.item(node, v, "ci%d" % v))
-            self.inline_key_callbacks(node, kwargs, its)
+            self.apply_key(node, kwargs, its)
             return t
+        if d == "type" and len(posv) == 1 and not star:
+            return self.fnval(node, ("classof", None, None), "classof")
         if d in T.FRESH_FUNCS or d in T.READONLY_FUNCS or d.split(".")[-1].endswith(T.EXC_SUFFIXES):
-            return self.fresh(node, "f", "result of %s" % d)
+            t = self.fresh(node, "f", "result of %s" % d)
+            # `out` given by keyword or positionally: written, and returned
+            outs = [kwargs["out"]] if "out" in kwargs else []
+            i = T.OUT_POS.get(d)
+            if i is not None and (len(posv) > i or star):
+                outs += posv[i:] if not star else argv
+            for o in outs:
+                self.write_out(node, o, t)
+            # `copy=False` / `copy=None` / not a literal, by keyword or positionally: the result may be the argument itself,
+            # converted in place
+            c = self.kw_state(node, kwargs, "copy", direct)
+            j = T.COPY_POS.get(d)
+            if j is not None and (len(posv) > j or star):
+                lit = node.args[j] if direct and not star and j < len(getattr(node, "args", [])) else None
+                c = lit.value if isinstance(lit, ast.Constant) else "unknown"
+            if c not in ("absent", True):
+                for v in (posv[:1] if posv and not star else argv):
+                    self.emit(WRITE, v, 0, node)
+                    self.emit(COPY, t, v, node)
+            # overwrite_input= / inplace= …: the inputs may be used as scratch space
+            for k in sorted(kwargs):
+                if k in T.INPLACE_KW and self.kw_state(node, kwargs, k, direct) is not False:
+                    for v in argv:
+                        self.emit(WRITE, v, 0, node)
+            return t
         if d == "getattr" and posv:
-            return self.elem(node, posv[0], "getattr")
+            lit = node.args[1] if direct and not star and len(getattr(node, "args", [])) > 1 else None
+            if isinstance(lit, ast.Constant) and isinstance(lit.value, str):
+                e = ast.copy_location(ast.Attribute(value=node.args[0], attr=lit.value, ctx=ast.Load()), node)
+                t = self.tmp(node, "getattr")
+                self.emit(COPY, t, self.ev_Attribute(e), node)
+            else:                                      # some attribute or method of the object
+                t = self.elem(node, posv[0], "getattr")
+                self.emit(COPY, t, posv[0], node)
+                self.prog.fv.setdefault(t, set()).add(("bound", posv[0], "<unknown attribute>", None, None))
+                self.prog.fn_origin.add(t)
+            for v in posv[2:]:
+                self.emit(COPY, t, v, node)
+            return t
         if d == "super":
             return self.const()
         return self.unknown_call(node, argv, d)
@@ -1072,6 +1370,7 @@ class Frame:
     # --- parameters
     def bind(self, name, var, node):
         self.state[name] = (var,)                     # parameters are the argument variables themselves
+        self.param_bind[name] = var
         return var
 
     def default_value(self, expr):
@@ -1093,6 +1392,7 @@ class Frame:
             v = self.prog.var(("param", n))
             self.prog.params.append(v)
             self.state[n] = (v,)
+            self.param_bind[n] = v
         self.defvar()
 
     def bind_params(self, callee, args, kwargs, kwstar, node, caller, unbound=False, static=False):
@@ -1225,10 +1525,7 @@ class Frame:
             self.local_imports[a.asname or a.name] = (st.module or "") + "." + a.name
 
     def st_FunctionDef(self, st):
-        t = self.tmp(st, "def")
-        self.prog.fv.setdefault(t, set()).add(Callee(self.module, st, cls=None, self_cls=self.self_cls, parent=self))
-        self.emit(COPY, t, self.const(), st)
-        self.define(st.name, t, st)
+        self.define(st.name, self.fnval(st, Callee(self.module, st, cls=None, self_cls=self.self_cls, parent=self), "def"), st)
 
     def st_Assign(self, st):
         if isinstance(st.value, ast.Constant) and isinstance(st.value.value, (int, float, complex)) \
@@ -1257,10 +1554,12 @@ class Frame:
         elif isinstance(t, ast.Subscript):
             x = self.ev(t.value)
             self.ev_index(t.slice)
+            self.touch_state(t.value, x, node)
             self.emit(WRITE, x, 0, node)
             self.emit(STORE, x, val, node)
         elif isinstance(t, ast.Attribute):
             x = self.ev(t.value)
+            self.touch_state(t.value, x, node)
             if t.attr in T.ARRAY_META_ATTRS:
                 self.emit(WRITE, x, 0, node)
                 return
@@ -1277,6 +1576,19 @@ class Frame:
         else:
             raise TranslatorError("unsupported assignment target %s at %s" % (type(t).__name__, self.org(node)))
 
+    def touch_state(self, e, x, node):
+        """a store / attribute assignment / deletion through `e`: if `e` is a module, class, function or library object, that
+        is a write of module-level state"""
+        q = self.state_object(e, x)
+        if q is None and isinstance(e, ast.Attribute):      # os.environ[...] = …, C.table[k] = …: the owner of the attribute
+            q = self.state_object(e.value)
+        if q is not None:
+            if q == "<pyplot>":
+                self.emit(WGLOB, T.PYPLOT_GLOBAL, 0, node)
+                self.prog.globals_written.add("<pyplot>")
+            else:
+                self.write_global(q, node)
+
     def st_AugAssign(self, st):
         val = self.ev(st.value)
         t = st.target
@@ -1290,6 +1602,7 @@ class Frame:
         elif isinstance(t, ast.Subscript):
             x = self.ev(t.value)
             self.ev_index(t.slice)
+            self.touch_state(t.value, x, st)
             if isinstance(t.slice, ast.Tuple):        # a[i, j] op= v: only ndarrays take tuple indices -> a view of a's own buffer
                 tv = self.tmp(st, "augview")
                 self.emit(COPY, tv, x, st)
@@ -1301,6 +1614,7 @@ class Frame:
             self.emit(STORE, x, res, st)
         elif isinstance(t, ast.Attribute):
             x = self.ev(t.value)
+            self.touch_state(t.value, x, st)
             tv = self.elem(st, x, "aug")
             self.emit(WRITE, tv, 0, st)
             self.emit(SETATTR, x, tv, st)
@@ -1313,9 +1627,10 @@ class Frame:
             if isinstance(t, ast.Subscript):
                 x = self.ev(t.value)
                 self.ev_index(t.slice)
+                self.touch_state(t.value, x, st)
                 self.emit(WRITE, x, 0, st)
             elif isinstance(t, ast.Attribute):
-                self.ev(t.value)
+                self.touch_state(t.value, self.ev(t.value), st)
 
     @staticmethod
     def is_hook_test(test):
@@ -1336,7 +1651,7 @@ class Frame:
     def loop(self, st, head):
         in_state = dict(self.state)
         mark = len(self.deflog)
-        for _ in range(6):
+        for _ in range(LOOP_PASSES):
             before = dict(self.state)
             head()
             self.block(st.body)
@@ -1344,6 +1659,8 @@ class Frame:
             if new == before:
                 break
             self.state = new
+        else:
+            raise TranslatorError("the version sets of the loop at %s are not stable after %d passes" % (self.org(st), LOOP_PASSES))
         self.state = self.merge(in_state, self.defs_since(mark), self.state)
         self.block(st.orelse)
 
@@ -1515,6 +1832,8 @@ class Result:
         self.name, self.ident = ep.name, ep.ident
         self.unsafe = prog.unsafe_instrs(sol)
         self.safe = not self.unsafe
+        self.wf = prog.well_formed(sol)
+        self.untranslatable = bool(getattr(prog, "untranslatable", False))
         ids = getattr(prog, "global_ids", {"<pyplot>": T.PYPLOT_GLOBAL})
         self.global_ids = ids
         self.reads = sorted({a for op, a, b in prog.instrs if op == RGLOB})
@@ -1531,6 +1850,10 @@ class Result:
         self.classification = ("pyplot " if T.PYPLOT_GLOBAL in self.reads + self.writes else "") + ("rng " if self.uses_rng else "") + \
             " ".join("global:" + names.get(g, str(g)) for g in sorted(set(self.reads + self.writes)) if g != T.PYPLOT_GLOBAL)
         self.classification = self.classification.strip() or "pure"
+        # a literal second call provably returns an equal result (Props/C19.lean `second_call_same_result`): safe, no global
+        # read or written, no RNG, and no attribute table of a caller-owned object updated (methods with lazy caches are not)
+        self.repeatable = (self.kind == "obligation" and self.safe and self.classification == "pure" and not allowed and not self.allow_rng
+                           and not any(op == SETATTR and sol["pts"][a] & 1 for op, a, b in prog.instrs))
 
     def lean(self):
         i, prog, sol = self.ident, self.prog, self.sol
@@ -1553,9 +1876,17 @@ class Result:
             out.append("theorem glob_%s : globalsWithin ir_%s [%s] [%s] %s = true := by decide +kernel"
                        % (i, i, ", ".join(map(str, self.allowed_globals)), ", ".join(map(str, self.allowed_globals)),
                           "true" if self.allow_rng else "false"))
+            out.append("theorem wf_%s : wellFormed ir_%s sol_%s = true := by decide +kernel" % (i, i, i))
+            if self.repeatable:
+                # no module-level state, no RNG, no attribute update of a caller-owned object: `second_call_same_result` applies
+                out.append("private theorem attrs_%s : (ir_%s).instrs.all (attrsOk sol_%s) = true := by decide +kernel" % (i, i, i))
+                out.append("theorem repeat_%s : pureCall ir_%s sol_%s = true ∧ globalsWithin ir_%s [] [] false = true :=\n"
+                           "  ⟨pureCall_of_safe _ _ safe_%s attrs_%s, glob_%s⟩" % (i, i, i, i, i, i, i))
         elif self.kind == "inplace_by_contract":
-            out.append("/-- in place by documented contract (policy.json): the analysis must flag it -/")
-            out.append("theorem unsafe_%s : safe ir_%s sol_%s = false := by decide +kernel" % (i, i, i))
+            out.append("/-- in place by documented contract (policy.json): the analysis must flag it — the solution is a genuine "
+                       "post-fixpoint of a well-formed program, and it is not safe -/")
+            out.append("theorem unsafe_%s : isPostFixpoint ir_%s sol_%s = true ∧ wellFormed ir_%s sol_%s = true ∧ safe ir_%s sol_%s = false := by decide +kernel"
+                       % (i, i, i, i, i, i, i))
         else:
             out.append("-- dynamic only (harness/translator/dynamic_only.json): no generated obligation; covered by the [T] sweep")
         return "\n".join(out)
@@ -1577,6 +1908,7 @@ def translate_all(root, policy=None):
             prog.params.append(v)
             prog.emit(WRITE, v, 0, "untranslatable: %s" % e)
             prog.nvars, prog.nsites = 1, 0
+            prog.untranslatable = True
             tr.unknown_calls.add("untranslatable entry point %s" % ep.name)
         results.append(Result(ep, prog, prog.solve(), policy))
     return project, tr, results
@@ -1585,7 +1917,7 @@ def translate_all(root, policy=None):
 HEADER = """/-
   GENERATED by harness/translator/py2ir.py from the source of `persim` — do not edit.
   Regenerated on every `./check.py C19` from PERSIM_ROOT (default /repo); identical on an unchanged tree.
-  One IR program, one solver solution and the obligations `safe_<entry>` / `glob_<entry>` per public entry point.
+  One IR program, one solver solution and the obligations `safe_<entry>` / `glob_<entry>` / `wf_<entry>` per public entry point.
 -/
 import PersimVerif.Props.C19
 set_option maxRecDepth 100000
@@ -1709,4 +2041,71 @@ SNIPPETS = [
     ("good", "f", "import numpy as np\ndef g(x):\n    x = np.copy(x)\n    x[0] = 1\n    return x\ndef f(a):\n    return g(a)\n"),
     ("good", "f", "def f(A):\n    A = list(A)\n    for i in range(len(A)):\n        A[i] = list(A[i])\n    A.pop(-1)\n    return A\n"),
     ("good", "f", "import numpy as np\ndef f(a, b):\n    D = np.zeros((3, 3))\n    D[0:2, 0:2] = a\n    np.fill_diagonal(D, b)\n    return D\n"),
+    # --- calls through callables the translator cannot resolve / resolves late (audit C1)
+    ("bad", "f", "def f(a):\n    s = a.sort\n    s()\n"),
+    ("bad", "f", "def f(a):\n    getattr(a, 'sort')()\n"),
+    ("bad", "f", "def f(a, name):\n    getattr(a, name)()\n"),
+    ("bad", "f", "import numpy as np\ndef f(a):\n    g = np.fill_diagonal\n    g(a, 0)\n"),
+    ("bad", "f", "def f(A):\n    return list(map(lambda r: r.fill(0), A))\n"),
+    ("bad", "f", "def z(r):\n    r[0] = 0\n    return r\ndef f(A):\n    return list(map(z, A))\n"),
+    ("bad", "f", "def f(A):\n    return list(filter(lambda r: r.sort() is None, A))\n"),
+    ("bad", "f", "import numpy as np\ndef f(A):\n    h = np.vectorize(lambda r: r.sort(), otypes=[object])\n    return h(A)\n"),
+    ("bad", "f", "def f(A):\n    return sorted(A, key=lambda r: r.pop())\n"),
+    ("bad", "f", "def f(A):\n    return min(A, key=lambda r: r.sort())\n"),
+    ("bad", "f", "def f(a, cb):\n    return cb(a)\n"),
+    ("bad", "f", "def f(a):\n    m = a.fill if len(a) else a.sort\n    m(0)\n"),
+    ("bad", "f", "import functools\ndef f(a):\n    functools.partial(a.sort)()\n"),
+    ("bad", "f", "def f(a):\n    unknown_library_call(lambda: a.sort())\n"),
+    ("bad", "f", "def f(a):\n    unknown_library_call([a])\n"),
+    ("bad", "C.m", "class C:\n    def __init__(self, a, g):\n        self.a = a\n        self.g = g\n    def m(self):\n        return self.g()\n"),
+    ("bad", "f", "def f(rows):\n    apply = [r.sort for r in rows]\n    for g in apply:\n        g()\n"),
+    ("good", "f", "import numpy as np\ndef f(a):\n    b = np.copy(a)\n    s = b.sort\n    s()\n    return b\n"),
+    ("good", "f", "import numpy as np\ndef f(a):\n    b = np.array(a)\n    g = np.fill_diagonal\n    g(b, 0)\n    return b\n"),
+    ("good", "f", "def f(A):\n    return list(map(lambda r: r[0] + 1, A))\n"),
+    ("good", "f", "def f(A):\n    return list(map(list, A))\n"),
+    ("good", "f", "import numpy as np\ndef f(A):\n    B = [np.copy(r) for r in A]\n    return list(map(lambda r: r.fill(0), B))\n"),
+    ("good", "f", "from operator import itemgetter\ndef f(A):\n    return min(A, key=itemgetter(0))[0], sorted(A, key=lambda x: [x[0], -x[1]])\n"),
+    ("good", "f", "def f(a, weight, kernel):\n    return weight(a) + kernel(a, a)\n"),
+    ("good", "f", "import numpy as np\ndef f(A):\n    h = np.vectorize(lambda x: x + 1)\n    return h(A)\n"),
+    # --- positional `out`, copy=False / None (audit C2)
+    ("bad", "f", "import numpy as np\ndef f(a):\n    return np.clip(a, 0, 1, a)\n"),
+    ("bad", "f", "import numpy as np\ndef f(a):\n    np.add(a, 1, a)\n"),
+    ("bad", "f", "import numpy as np\ndef f(a):\n    np.sqrt(a, a)\n"),
+    ("bad", "f", "import numpy as np\ndef f(a):\n    np.multiply(a, 2, out=(a,))\n"),
+    ("bad", "f", "import numpy as np\ndef f(a):\n    b = np.add(a, 1, out=a)\n    return b\n"),
+    ("bad", "f", "import numpy as np\ndef f(a):\n    return np.nan_to_num(a, copy=False)\n"),
+    ("bad", "f", "import numpy as np\ndef f(a):\n    return np.nan_to_num(a, False)\n"),
+    ("bad", "f", "import numpy as np\ndef f(a):\n    b = np.array(a, copy=None)\n    b[0] = 1\n"),
+    ("bad", "f", "import numpy as np\ndef f(a, c):\n    b = np.array(a, copy=c)\n    b[0] = 1\n"),
+    ("bad", "f", "def f(a):\n    b = a.astype(float, copy=None)\n    b[0] = 1\n"),
+    ("bad", "f", "def f(a):\n    a.clip(0, 1, a)\n"),
+    ("bad", "f", "def f(a):\n    a.cumsum(0, None, a)\n"),
+    ("bad", "f", "import numpy as np\ndef f(a):\n    np.cumsum(a, 0, None, a)\n"),
+    ("bad", "f", "import numpy as np\ndef f(a, args):\n    np.clip(*args)\n"),
+    ("bad", "f", "import numpy as np\ndef f(a):\n    return np.median(a, overwrite_input=True)\n"),
+    ("good", "f", "import numpy as np\ndef f(a):\n    b = np.copy(a)\n    np.clip(b, 0, 1, b)\n    np.add(b, 1, b)\n    return np.nan_to_num(b, copy=False)\n"),
+    ("good", "f", "import numpy as np\ndef f(a):\n    return np.clip(a, 0, 1), np.add(a, 1), np.nan_to_num(a), np.nan_to_num(a, copy=True), np.array(a, copy=True)\n"),
+    ("good", "f", "import numpy as np\ndef f(a):\n    b = np.empty_like(a)\n    np.add(a, 1, out=b)\n    b[0] = 3\n    return b\n"),
+    ("good", "f", "def f(a):\n    b = a.astype(float, copy=True)\n    b[0] = 1\n    return a.clip(0, 1), a.sum(0), b\n"),
+    # --- loops (audit C4): a write through the n-th alias in a chain is found however long the chain is
+    ("bad", "f", "import numpy as np\ndef f(a, n):\n    b = np.copy(a)\n    c = b\n    d = c\n    e = d\n    g = e\n    for i in range(n):\n        g[0] = 1\n        g = e\n        e = d\n        d = c\n        c = b\n        b = a\n"),
+    ("good", "f", "import numpy as np\ndef f(a, n):\n    b = np.copy(a)\n    c = b\n    d = c\n    for i in range(n):\n        d[0] = 1\n        d = c\n        c = b\n        b = np.copy(a)\n    return d\n"),
+    # --- module-level state other than module data: class attributes, function attributes, library state (audit C3)
+    ("bad", "C.m", "class C:\n    count = 0\n    def m(self, a):\n        C.count += 1\n        return C.count\n"),
+    ("bad", "C.m", "class C:\n    table = {}\n    def m(self, a):\n        return C.table\n"),
+    ("bad", "C.m", "class C:\n    def m(self, a):\n        type(self).seen = a\n"),
+    ("bad", "C.m", "class C:\n    def m(self, a):\n        self.__class__.seen = a\n"),
+    ("bad", "f", "def f(a):\n    f.calls = getattr(f, 'calls', 0) + 1\n    return f.calls\n"),
+    ("bad", "f", "def f(a):\n    def g():\n        return 1\n    g.last = a\n    return g\n"),
+    ("bad", "f", "import numpy as np\ndef f(a):\n    np.seterr(all='ignore')\n    return a + 1\n"),
+    ("bad", "f", "import numpy as np\ndef f(a):\n    with np.errstate(all='ignore'):\n        return a / a\n"),
+    ("bad", "f", "import warnings\ndef f(a):\n    warnings.simplefilter('ignore')\n    return a + 1\n"),
+    ("bad", "f", "import os\ndef f(a):\n    return a + int(os.environ.get('K', '0'))\n"),
+    ("bad", "f", "import os\ndef f(a):\n    os.environ['K'] = '1'\n"),
+    ("bad", "f", "import time\ndef f(a):\n    return a + time.time()\n"),
+    ("bad", "f", "import numpy as np\ndef f(a):\n    np.random.seed(0)\n    return a + 1\n"),
+    ("bad", "f", "import numpy as np\ndef f(a):\n    np.core.cache = a\n"),
+    ("bad", "f", "import matplotlib as mpl\ndef f(a):\n    mpl.rcParams['lines.linewidth'] = 2\n"),
+    ("good", "C.m", "class C:\n    def m(self, a):\n        return '%s(%d)' % (self.__class__.__name__, len(a)), type(a).__name__\n"),
+    ("good", "f", "import warnings\nimport numpy as np\ndef f(a):\n    if len(a) == 0:\n        warnings.warn('empty')\n    return np.inf, np.float64(1), float\n"),
 ]
